@@ -1,5 +1,7 @@
 import TongoProofs.Lemmas.Wallet
 import TongoProofs.Lemmas.CellOrdSpec
+import TongoGen.WalletV5Id
+import TongoProofs.Lemmas.GenTiesB
 /-! Property C15 — wallet address and send parameters follow from key, version and chain state.
 
 Model: `TongoModel/Wallet.lean` (data layouts, state-init, address), `TongoModel/WalletSend.lean`
@@ -373,6 +375,36 @@ theorem confirm_ok_false_before_fix :
       (∃ p ∈ polls.takeWhile (fun p => decide (p.elapsed < wait)), p.err = false ∧ p.seqno > seqno) ∧
       confirmLoopV0 wait seqno polls = false :=
   ⟨10, 0, [{ elapsed := 0, seqno := 1, err := false }], by decide, by decide⟩
+
+/-! ### the v5r1 wallet id: regenerated Go code against the model -/
+
+/-- tie (X4, regenerated from wallet/wallet_v5.go): the Go function `genContextID(uint32(workchain))`, translated to
+`BitVec` arithmetic on every run (`Gen.WalletV5Id.genContextID`), equals the model's `Wallet.genContextID` for every
+integer workchain. The translator renders `boc.Cell.WriteUint`/`ReadUint` on a fresh cell as shift-or on an
+accumulator: that semantics of `WriteUint/ReadUint` is trusted here and proved for the model in C06. -/
+theorem gen_genContextID (wc : Int) :
+    (Gen.WalletV5Id.genContextID (BitVec.ofInt 32 wc)).toNat = Wallet.genContextID wc :=
+  GenTies.gen_genContextID wc
+
+/-- tie (X4, regenerated from wallet/wallet_v5.go): the block of `NewWalletV5R1`
+`contextID := int64(genContextID(uint32(workchain))); walletID := contextID ^ networkGlobalID`, stored as
+`uint32(walletID)`, on a Go `int` workchain and the `int64` of an `int32` network id, equals the model's
+`genContextID wc ^^^ toU32 net`. (The semantics of `boc.Cell.WriteUint/ReadUint` on a fresh cell used by the
+translator inside `genContextID` is trusted here and proved for the model in C06.) -/
+theorem gen_walletID (wc net : Int) (hw : -(2 : Int) ^ 63 ≤ wc ∧ wc < 2 ^ 63)
+    (hn : -(2 : Int) ^ 31 ≤ net ∧ net < 2 ^ 31) :
+    (Gen.WalletV5Id.walletID (BitVec.ofInt 64 wc) (BitVec.ofInt 64 net)).toNat
+      = Wallet.genContextID wc ^^^ Wallet.toU32 net :=
+  GenTies.gen_walletID wc net hw hn
+
+/-- tie (X4, regenerated from wallet/wallet_v5.go): on the options of a wallet the regenerated block computes the
+`walletIdV5R1` that `dataBitsSeq` stores in the v5r1 data cell (and on which `identFields` / the injectivity theorems
+rest). Same trust note: `boc.Cell.WriteUint/ReadUint` on a fresh cell as used by the translator is trusted here and
+proved for the model in C06. -/
+theorem gen_walletIdV5R1 (o : Opts) (hw : -(2 : Int) ^ 63 ≤ o.wc ∧ o.wc < 2 ^ 63)
+    (hn : -(2 : Int) ^ 31 ≤ o.netOr ∧ o.netOr < 2 ^ 31) :
+    (Gen.WalletV5Id.walletID (BitVec.ofInt 64 o.wc) (BitVec.ofInt 64 o.netOr)).toNat = walletIdV5R1 o :=
+  GenTies.gen_walletIdV5R1 o hw hn
 
 /-! ### the hypotheses are satisfiable -/
 
